@@ -326,7 +326,7 @@ def _vocab():
         V("sec", sec, "data", ns="second"), V("add", add_second, "data", ns="second"),
         V("fail", fail, "data"), V("vol", vol, "data", volatile=True), V("nocache", nocache, "data"), V("nocache2", nocache2, "state"),
         V("push", push, "data"), V("setkey", setkey, "data"), V("poplen", poplen, "data"),
-        V("cap", cap, "data", ABC=1), V("low", low, "data", abc=1), V("cap2", cap2, "data", XYZ="z"),
+        V("cap", cap, "data", ABC=1), V("low", low, "data", abc=1), V("cap2", cap2, "data", Xyz="z"),
         V("sub", sub, "data"),
     ]
 
@@ -1506,4 +1506,5 @@ def canonical_parent(canon_query):
     if q.filename() is not None:
         q, _r = q.predecessor()
     p, _r = q.predecessor()
-    return "" if p is None else p.encode()
+    # the empty query has one text, '' (an absolute empty query would print as '/': the same query, nothing to apply an action to)
+    return "" if (p is None or p.is_empty()) else p.encode()
